@@ -129,24 +129,50 @@ theorem mk_alias_sound (S : State) (hR : Reach S) (rc : Cls) (hrc : rc < S.T.len
 
 /-! ## equality and hashing -/
 
-/-- `==` holds exactly between sets of the same class with the same namespaces -/
+/-- `==` holds exactly between sets of the same class whose namespaces have the same associated
+    classes and field values; which subclass of a namespace class a constituent is an instance of
+    (`tag`) plays no part -/
 theorem eq_iff_same_value (S : State) (hR : Reach S) (i j : Nat) (hi : i < S.objs.length) (hj : j < S.objs.length) :
-    raEq S i j = true ↔ S.obj i = S.obj j :=
+    raEq S i j = true ↔ (S.obj i).rcls = (S.obj j).rcls ∧ untag (S.obj i).nss = untag (S.obj j).nss :=
   raEq_iff S (reach_inv hR) i j hi hj
 
-/-- equal sets hash equal (they feed the same tuple to `hash`) -/
+/-- equal sets hash equal (they feed the same tuple to `hash`) — also when they were built from
+    instances of different subclasses of the namespace classes -/
 theorem eq_hash (S : State) (hR : Reach S) (i j : Nat) (hi : i < S.objs.length) (hj : j < S.objs.length)
     (h : raEq S i j = true) : hashKey S i = hashKey S j := by
-  have := (raEq_iff S (reach_inv hR) i j hi hj).mp h
-  simp only [hashKey, this]
+  obtain ⟨h1, h2⟩ := (raEq_iff S (reach_inv hR) i j hi hj).mp h
+  simp only [hashKey, h1, Prod.mk.injEq, true_and]
+  rw [← hashKey_untag (S.obj i).nss, ← hashKey_untag (S.obj j).nss, h2]
 
-/-- `ns in render_args` iff the set's namespace for the class of `ns` is `ns` -/
+/-- equal namespaces hash equal, and `==`/`hash` of a namespace are functions of (associated render
+    class, field values) only: an instance of `class Sub(A.Args): pass` is equal to, and hashes like,
+    the `A.Args` instance with the same field values -/
+theorem ns_eq_hash (a b : NS) :
+    (nsEq a b = true ↔ nsHashKey a = nsHashKey b) ∧
+    (∀ t, nsEq a { a with tag := t } = true ∧ nsHashKey { a with tag := t } = nsHashKey a) := by
+  refine ⟨nsEq_iff_key a b, fun t => ⟨?_, rfl⟩⟩
+  simp [nsEq]
+
+/-- attribute protocol of a namespace: a field reads its value, any other non-attribute name raises
+    `UnknownArgsFieldError`; assignment and deletion always raise `AttributeError` -/
+theorem ns_attribute_rules (n : NS) (idx : Nat) (v : Int) :
+    (idx < n.vals.length → ∃ x, nsGetattr n idx = .ok x ∧ n.vals[idx]? = some x) ∧
+    (n.vals.length ≤ idx → nsGetattr n idx = .error .UnknownArgsFieldError) ∧
+    nsSetattr n idx v = .AttributeError ∧ nsDelattr n idx = .AttributeError ∧
+    getitemNonClass = .TypeError := by
+  refine ⟨?_, ?_, rfl, rfl, rfl⟩
+  · intro h
+    exact ⟨n.vals[idx], by simp [nsGetattr, h], by simp [h]⟩
+  · intro h
+    simp [nsGetattr, List.getElem?_eq_none h]
+
+/-- `ns in render_args` iff the set's namespace for the class of `ns` equals `ns` (same field values) -/
 theorem contains_iff (S : State) (i : Nat) (ns : NS) :
-    contains S i ns = true ↔ get? (S.obj i).nss ns.cls = some ns := by
+    contains S i ns = true ↔ ∃ v, get? (S.obj i).nss ns.cls = some v ∧ v.vals = ns.vals ∧ v.cls = ns.cls := by
   simp only [contains]
   cases h : get? (S.obj i).nss ns.cls with
   | none => simp
-  | some v => simp [nsEq_iff]
+  | some v => simp [nsEq, and_comm]
 
 /-- `render_args[cls]`: the namespace for every class of the hierarchy that has arguments (and it
     is associated with that class); `NoArgsNamespaceError` for an ancestor without arguments;
@@ -215,7 +241,7 @@ theorem ops_obey_update_fields (S : State) (hR : Reach S) (self : Nat) (hs : sel
 theorem ops_obey_ns_update (S : State) (ns : NS) (fields : List (Nat × Int)) :
     (fields = [] → nsUpdate S ns fields = .ok ns) ∧
     (fields ≠ [] → (∃ f ∈ fields, S.nfields ns.cls ≤ f.1) → nsUpdate S ns fields = .error .UnknownArgsFieldError) ∧
-    (∀ n, nsUpdate S ns fields = .ok n → n.cls = ns.cls ∧ n.vals.length = ns.vals.length) := by
+    (∀ n, nsUpdate S ns fields = .ok n → n.cls = ns.cls ∧ n.tag = ns.tag ∧ n.vals.length = ns.vals.length) := by
   refine ⟨fun h => by simp [nsUpdate, h], ?_, ?_⟩
   · intro hne ⟨f, hf, hle⟩
     have : fields.any (fun f => decide (S.nfields ns.cls ≤ f.1)) = true :=
@@ -224,11 +250,11 @@ theorem ops_obey_ns_update (S : State) (ns : NS) (fields : List (Nat × Int)) :
   · intro n h
     simp only [nsUpdate] at h
     split at h
-    · cases h; exact ⟨rfl, rfl⟩
+    · cases h; exact ⟨rfl, rfl, rfl⟩
     · split at h
       · cases h
       · cases h
-        exact ⟨rfl, foldl_set_length _ _⟩
+        exact ⟨rfl, rfl, foldl_set_length _ _⟩
 
 /-- `render_args.convert(cls)`: accepted exactly for a parent or child (else `ValueError`); the
     result holds, for every class of the target's hierarchy, this set's namespace if it has one,
@@ -678,15 +704,20 @@ theorem define_rules_data_unknown_field (D : DState) (i : Nat) (k : NsCls) (fiel
 /-- the history used by the examples: A = 1 (two fields), B = 2 (none), C = 3 (one field), X = 4 -/
 def exHistory : List Op :=
   [.defClass 0 (some [0, 0]), .defClass 1 none, .defClass 2 (some [7]), .defClass 0 (some [1]),
-   .mk 3 none [], .mk 3 none [⟨1, [5, 6]⟩], .mk 3 (some 2) [⟨3, [9]⟩, ⟨1, [0, 0]⟩, ⟨3, [7]⟩]]
+   .mk 3 none [], .mk 3 none [⟨1, [5, 6], 0⟩], .mk 3 (some 2) [⟨3, [9], 0⟩, ⟨1, [0, 0], 0⟩, ⟨3, [7], 0⟩]]
 
 example : (runOps State.init exHistory).objs =
-    [⟨0, []⟩, ⟨3, [(3, ⟨3, [7]⟩), (1, ⟨1, [0, 0]⟩)]⟩, ⟨3, [(3, ⟨3, [7]⟩), (1, ⟨1, [5, 6]⟩)]⟩,
-     ⟨3, [(3, ⟨3, [7]⟩), (1, ⟨1, [0, 0]⟩)]⟩] := by decide
+    [⟨0, []⟩, ⟨3, [(3, ⟨3, [7], 0⟩), (1, ⟨1, [0, 0], 0⟩)]⟩, ⟨3, [(3, ⟨3, [7], 0⟩), (1, ⟨1, [5, 6], 0⟩)]⟩,
+     ⟨3, [(3, ⟨3, [7], 0⟩), (1, ⟨1, [0, 0], 0⟩)]⟩] := by decide
 example : (runOps State.init exHistory).interned = [(0, 0), (3, 1)] := by decide
 /-- all-default arguments over a non-default initial set do *not* return the shared default object:
     object 3 equals object 1 but is another object -/
 example : raEq (runOps State.init exHistory) 1 3 = true ∧ hashKey (runOps State.init exHistory) 1 = hashKey (runOps State.init exHistory) 3 := by decide
+/-- a set built from an instance of a subclass of `A.Args` (tag 1) is another object than, equal to, and
+    hashes like the shared default set -/
+example :
+    let S := runOps State.init [.defClass 0 (some [0]), .mk 1 none [], .mk 1 none [⟨1, [0], 1⟩]]
+    S.obj 1 ≠ S.obj 2 ∧ raEq S 1 2 = true ∧ hashKey S 1 = hashKey S 2 ∧ nsEq ⟨1, [0], 0⟩ ⟨1, [0], 1⟩ = true := by decide
 example : (mk (runOps State.init exHistory) 4 (some 2) []).toOption = none := by decide
 example : (step (runOps State.init exHistory) (.convert 2 1)).2 matches .ra 4 := by decide
 example : (defineNs (DState.init 2) [0] [some 1, some 2] (some 1)).toOption.map (·.2) = some 1 := by decide
